@@ -375,9 +375,27 @@ class Analyzer:
             out[k] = set(a.get(k, ())) | set(b.get(k, ()))
         return out
 
+    def _leaves(self, st):
+        """the statement never falls through (under the path assumptions): what follows it in the block is unreachable."""
+        if isinstance(st, (ast.Return, ast.Raise, ast.Continue, ast.Break)):
+            return True
+        if isinstance(st, ast.If):
+            known = self._assumed(st.test)
+            if known is True:
+                return self._block_leaves(st.body)
+            if known is False:
+                return self._block_leaves(st.orelse)
+            return self._block_leaves(st.body) and self._block_leaves(st.orelse)
+        return False
+
+    def _block_leaves(self, stmts):
+        return any(self._leaves(s) for s in stmts)
+
     def _block(self, stmts, env, res):
         for st in stmts:
             env = self._stmt(st, env, res)
+            if self._leaves(st):
+                break
         return env
 
     def _assign(self, target, toks, env, res, node):
